@@ -101,7 +101,12 @@ def run_case(case):
             if not isinstance(u, Union):
                 out["complement"].append({"r": "skip"})
                 continue
-            out["complement"].append(ctx.encode(u.complement(a)))
+            r1 = ctx.encode(u.complement(a))
+            try:
+                r2 = ctx.encode(u - a)           # the operator form must be the same set
+            except Exception as e2:  # noqa
+                r2 = {"r": "err", "e": errkind(e2)}
+            out["complement"].append(r1 if r1 == r2 else {"r": "err", "e": "sub-differs-from-complement"})
         except Exception as e:  # noqa
             out["complement"].append({"r": "err", "e": errkind(e)})
     for it in case.get("iter", []):
